@@ -660,6 +660,17 @@ Definition rect_clip_t (r : rect) (path : list pt) : res (list (list tpt)) :=
 
 Definition rect_clip (r : rect) (path : list pt) : list (list pt) := untag (res_default [] (rect_clip_t r path)).
 
+(* RectClip(rect, paths) / RectClip64::Execute(paths) on SEVERAL paths: Execute clips path after path and clears op_container_,
+   results_, edges_ and start_locs_ at the end of every loop iteration, so nothing is carried from one path to the next (nor
+   from one Execute call on an object to the next): the result is the concatenation of the per-path results in input order *)
+Fixpoint rect_clip_paths_t (r : rect) (ps : list (list pt)) : res (list (list tpt)) :=
+  match ps with
+  | [] => Ok []
+  | p :: t => o <- rect_clip_t r p ;; o' <- rect_clip_paths_t r t ;; Ok (o ++ o')
+  end.
+Definition rect_clip_paths (r : rect) (ps : list (list pt)) : res (list (list pt)) :=
+  o <- rect_clip_paths_t r ps ;; Ok (untag o).
+
 (* ---------- diagnostic variant (root cause classification in checks/C08.py only; no theorem is about it) ----------
    GetSegmentIntersection followed by a projection of the point it returns onto the rectangle side p3-p4 it was computed
    for (perpendicular coordinate := the side's, the other one clamped to the side's extent): the behaviour the code would
